@@ -87,7 +87,7 @@ var KnownIssues = map[string]bool{
 	// body (peer count, entry count, attribute length, view name length) are satisfied from
 	// whatever follows the record in the caller's buffer.
 	// Reproducer: PEER_INDEX_TABLE body 0a000001 0000 0001 (one peer announced, none present,
-	// h.Len=8) followed by 7 more octets parses successfully with a peer built from those octets.
+	// h.Len=8) followed by 11 more octets parses successfully with a peer built from those octets.
 	"mrt-body-reads-past-header-len": true,
 	// SplitMrt tests cap(data) instead of len(data) before slicing data[:12]: with fewer than 12
 	// octets available it parses a header out of stale buffer contents behind the data
